@@ -139,6 +139,9 @@ func turbotunnelMode(conn net.Conn, addr net.Addr, pconn *turbotunnel.QueuePacke
 				return
 			}
 			pconn.QueueIncoming(p, clientID)
+			if verifhook.Enabled {
+				verifhook.Point("server.turbotunnel.packet-in", clientID, p)
+			}
 		}
 	}()
 
